@@ -3,7 +3,7 @@ import struct
 import etf, termgen
 
 ID = "C10"
-GEN_FILES = ["DecoderArms.v", "Tags.v"]
+GEN_FILES = ["DecoderArms.v", "Tags.v", "HashFields.v"]
 RULE = ("pids/ports/references (node names, 32/64-bit numbers, serials, creations, 0..5 reference words) in modern plain form and in LOCAL_EXT "
         "form with random 8-byte hashes (around modern and legacy inner encodings), placed in tuples, lists, list tails, map keys, map values and "
         "fun environments; decoded, passed through random sequences of clone / From<&OwnedTerm> / to_owned / move, re-encoded (plain encoder and "
